@@ -22,6 +22,7 @@ def declare(rep):
     rep.rule("C16.section-lines", "each section line emitted by the writer is matched by the reader's regex for that section", floor=4)
     rep.rule("C16.number-format", "the writer's coordinate format only produces tokens the reader's number regex matches entirely", floor=1)
     rep.rule("C16.mesh-record-length", "mesh overload of write_cell_data: the declared integer count of a cell record is 1 + (number of faces) + sum over ALL faces of their node counts (faces may be arbitrary polygons)", floor=1)
+    rep.rule("C16.record-per-line", "the reader takes every line of the CELLS section as one cell record (std::getline), so the writer ends a record with exactly one newline emitted at the level of the loop over the cells - never inside the loops over a cell's faces / nodes", floor=2)
     rep.rule("C16.declared-counts", "declared counts (points, per-cell integers, cells, cell types, field length) agree with what the loops emit", floor=5)
     rep.rule("C16.reader-conventions", "the reader requires cell type 42 and takes the first integer of a record as its length", floor=2)
     rep.rule("C16.compact-before-count", "the cells are compacted (rebase) before any count, offset or coordinate is taken from them", floor=1)
@@ -75,6 +76,30 @@ def regexes(fn):
     return out
 
 
+def record_per_line(rep, prog, r_faces):
+    line_based = any(is_call(x) and x.get("callee", "").startswith("std::getline") for x in walk(r_faces["body"]))
+    if not line_based:
+        raise AnalysisBroken("mesh_reader::read_cell_faces no longer splits the CELLS section with std::getline: the record-per-line convention the writer rule relies on has changed")
+    LOOPS = ("ForStmt", "CXXForRangeStmt", "WhileStmt", "DoStmt")
+    for fn in prog.fns("mesh_writer::write_cell_data"):
+        if not isinstance(fn.get("body"), dict):
+            continue
+        fi = prog.index(fn)
+        n_ok = 0
+        for lit in walk(fn["body"]):
+            if lit.get("k") != "StringLiteral" or "\n" not in (lit.get("v") or ""):
+                continue
+            depth = sum(1 for p_, _s, _c in fi.ancestors(lit) if p_.get("k") in LOOPS)
+            if depth >= 2:
+                rep.violation("C16.record-per-line", prog, fn, lit, "newline emitted inside a cell record",
+                              "%s emits a line break inside the loops over the faces / nodes of one cell (loop depth %d): the CELLS record of that cell is continued on a second line, but mesh_reader::read_cell_faces takes every line as one record whose first integer is its length - the file written by the program is rejected (or mis-read) by its own reader" % (fn["qn"], depth))
+            elif depth == 1:
+                n_ok += 1
+                rep.ok("C16.record-per-line", prog, fn, lit, "line break at the level of the loop over the cells (one per record)")
+        if n_ok == 0:
+            raise AnalysisBroken("%s: no line break found at the level of the loop over the cells" % fn["key"])
+
+
 def run(rep, prog, tier):
     if not rep.rules:
         declare(rep)
@@ -88,6 +113,7 @@ def run(rep, prog, tier):
         raise AnalysisBroken("mesh_writer functions for cell lists not found")
     wfile, wcell = wfile[0], wcell[0]
     r_pos, r_faces, r_types = prog.fn("mesh_reader::get_node_pos"), prog.fn("mesh_reader::read_cell_faces"), prog.fn("mesh_reader::get_cell_types")
+    record_per_line(rep, prog, r_faces)
     rx_pos, rx_faces, rx_types = regexes(r_pos), regexes(r_faces), regexes(r_types)
     tw = emitted_templates(wfile) + emitted_templates(wcell)
     def find_line(key):
